@@ -235,6 +235,12 @@ pub fn driver2(dir: &str, spec_file: &str) {
             store.remove(&id).expect("retry remove");
             ack(&mut n, json!({"op": "retry-remove", "effects": [{"del": id.to_string()}]}));
         }
+        // third generation: nothing is requested; the process only runs the recovery and lets the
+        // background work it triggers (flush of recovered memtables, journal maintenance) settle
+        "none" => {
+            std::thread::sleep(std::time::Duration::from_millis(spec["settle_ms"].as_u64().unwrap_or(300)));
+            ack(&mut n, json!({"op": "idle", "effects": []}));
+        }
         other => panic!("driver2: unknown op {}", other),
     }
     std::process::exit(0);
@@ -345,7 +351,9 @@ pub fn run(tier: &str, report: &mut crate::common::Report) {
     report.cov("crash_points", stats["crash_points"].clone());
     report.cov("images", json!({"process_kill": kill, "power_loss": power, "torn_tail": torn}));
     let g2 = stats["images_second_generation"].as_u64().unwrap_or(0);
-    report.cov("recoveries_run", json!(kill + power + torn + g2));
+    let g3 = stats["images_recovery_fault"].as_u64().unwrap_or(0);
+    report.cov("recoveries_run", json!(kill + power + torn + g2 + g3));
+    report.cov("fault_during_recovery", json!({"first_generation_kill_images_reopened_under_trace": stats["recovery_fault_runs"], "images": g3, "max_mutations_of_one_recovery": stats["recovery_mutations_max"], "samples": stats["recovery_fault_samples"], "rule": "a process-kill image of the first generation is reopened by a traced process that only runs the recovery and lets the background work it triggers settle (300 ms); for EVERY prefix of that process's store-directory mutations a process-kill image and, wherever a journal holds unsynced bytes, a power-loss image is opened by a third process and judged against the same acknowledged history (quick: six first-generation crash points per history spread over the trace; thorough: every one)"}));
     report.cov("second_generation", json!({"kill_reopen_retry_runs": stats["second_generation_runs"], "images": g2, "rule": "process-kill images taken inside an import / remove are reopened by a second traced process which sends the same request again and acknowledges it; kill and power-loss images after that acknowledgement (the unsynced journal bytes of the first process are still unsynced) must contain the operation"}));
     report.cov("syscalls_interpreted", stats["syscalls_interpreted"].clone());
     report.cov("histories", v["histories"].clone());
